@@ -297,6 +297,8 @@ def check_C05(report):
 
 def check_C06(report):
     check(report, 'C06')
+    from . import durable  # pylint: disable=import-outside-toplevel
+    durable.check(report)  # second, image-free decision procedure: the L0 event monitor DurTrace.tla
 
 
 def replay(data) -> int:
